@@ -339,6 +339,16 @@ def membind_cover_calls(T):
     return res
 
 
+HOSTILE_NAMES = [b"x", b")", b") ", b"(", b"a b", b"a) 1 2 3", b"w) k", b"x) S 1 2 3 4 5", b"123456789012345", b"", b") ) ) ) ) ) ) )",
+                 b"((((", b") 0 0 0 0 0 0 0", b"a)b)c) d", b" ", b"1 (2) S 3"]
+
+
+def stat_line(pid, name, processor, exit_signal=17):
+    """/proc/<tid>/stat with that task name: 36 fields between the name and field 39 (processor)"""
+    fields = ["S"] + [str(100 + i) for i in range(34)] + [str(exit_signal)]
+    return b"%d (" % pid + name + b") " + " ".join(fields).encode() + b" %d 0 0 0 0\n" % processor
+
+
 def gen_hook_state(rng):
     """mode + scripted results for the recording hooks"""
     k = rng.random()
